@@ -110,7 +110,7 @@ Apply(st) ==
 ConjIx(ix) == [dual |-> ~ix.dual, cm |-> ix.cm]
 NewChain ==
   /\ "chain" \in OpSet /\ Cardinality(Regs) = 0
-  /\ \E i1, i2 \in Indices : \E dang \in {"none", "left", "right"} : \E f \in Indices :
+  /\ \E i1, i2 \in Indices : \E dang \in (IF "chain_dangling" \in OpSet THEN {"none", "left", "right"} ELSE {"none"}) : \E f \in Indices :
        LET ixs1 == (IF dang = "left" THEN <<f>> ELSE <<>>) \o <<i1>>
            ixs2 == <<ConjIx(i1), i2>>
            ixs3 == <<ConjIx(i2)>> \o (IF dang = "right" THEN <<f>> ELSE <<>>)
